@@ -533,6 +533,68 @@ func generate(c *drv.Ctx) {
 		}
 	}
 	c.Extra["cross_location_declarations"] = nCross
+	// (4d) defaults of every magnitude: zero-valued defaults (0, 0.0, false, "", [] - a default that "is zero" is still a default),
+	// large and small magnitudes (>= 10^6, < 10^-4: where %v switches to exponent notation), negative, 2^53, for scalars and as
+	// array items; required x allowEmpty; parameter absent / empty / separators only / valid / invalid
+	nDef := 0
+	type defCase struct {
+		k    kind
+		defs [][]string
+	}
+	intDefs := [][]string{{"0"}, {"1000000"}, {"-1000000", "5"}, {"123456789", "1000000000"}, {"0", "0"}, {}}
+	scalarDefs := []defCase{
+		{kind{"integer", ""}, append([][]string{{"9007199254740992"}, {"-9007199254740992"}}, intDefs[:3]...)},
+		{kind{"integer", "int64"}, [][]string{{"0"}, {"9007199254740992"}, {"100000000000"}}},
+		{kind{"integer", "int32"}, intDefs[:3]}, {kind{"integer", "int8"}, [][]string{{"0"}, {"-128"}}},
+		{kind{"number", "double"}, [][]string{{"0"}, {"0.0"}, {"0.00001"}, {"1000000"}, {"-2500000.5"}, {"1e21"}, {"-0.00005"}}},
+		{kind{"number", ""}, [][]string{{"0"}, {"0.00001"}, {"1000000"}}},
+		{kind{"number", "float"}, [][]string{{"0"}, {"0.00001"}, {"1000000"}, {"-250000"}}},
+		{kind{"boolean", ""}, [][]string{{"false"}, {"true"}}},
+		{kind{"string", ""}, [][]string{{""}, {"0"}}}, {kind{"string", "foo"}, [][]string{{""}}},
+	}
+	arrayDefs := []defCase{
+		{kind{"integer", ""}, append([][]string{{"9007199254740992", "-9007199254740992"}}, intDefs...)},
+		{kind{"integer", "int64"}, append([][]string{{"9007199254740992"}, {"100000000000", "7"}}, intDefs...)},
+		{kind{"integer", "int32"}, intDefs},
+		{kind{"number", "double"}, [][]string{{"0"}, {"0.0", "0"}, {"0.00001"}, {"1000000"}, {"-0.00005", "2500000.5"}, {"1e21"}, {}}},
+		{kind{"number", ""}, [][]string{{"0"}, {"0.00001", "1000000"}, {}}},
+		{kind{"number", "float"}, [][]string{{"0"}, {"0.00001"}, {"1000000", "-250000"}}},
+		{kind{"boolean", ""}, [][]string{{"false"}, {"false", "true"}, {}}},
+		{kind{"string", ""}, [][]string{{""}, {"ab", ""}, {}}},
+	}
+	for _, l := range locations {
+		if l.In == "path" {
+			continue
+		}
+		for _, rq := range []bool{false, true} {
+			for _, ae := range []bool{false, true} {
+				for _, dc := range scalarDefs {
+					for _, df := range dc.defs {
+						d := Decl{In: l.In, Enc: l.Enc, Name: declName(l), Type: dc.k.T, Format: dc.k.F, Required: rq, HasDef: true, Def: df, AllowEmpty: ae, Val: noVal()}
+						texts := []string{"", goodText(dc.k.T, dc.k.F), badText(dc.k.T, dc.k.F), "0"}
+						c.Case(bindCase(d, requestsFor(d, texts, []string{goodText(dc.k.T, dc.k.F), ""})))
+						nDef++
+					}
+				}
+				for _, dc := range arrayDefs {
+					for _, df := range dc.defs {
+						for _, cf := range []string{"csv", "multi", "pipes"} {
+							if cf == "pipes" && !thorough {
+								continue
+							}
+							d := Decl{In: l.In, Enc: l.Enc, Name: declName(l), Type: "array", IType: dc.k.T, IFmt: dc.k.F, CF: cf, Required: rq, HasDef: true,
+								Def: append([]string{}, df...), AllowEmpty: ae, Val: noVal()}
+							good := goodText(dc.k.T, dc.k.F)
+							texts := []string{"", sepOf(cf), good, good + sepOf(cf) + good, badText(dc.k.T, dc.k.F)}
+							c.Case(bindCase(d, requestsFor(d, texts, []string{good, ""})))
+							nDef++
+						}
+					}
+				}
+			}
+		}
+	}
+	c.Extra["default_magnitude_declarations"] = nDef
 	// (5) files
 	for _, f := range []flags{{false, false, false}, {true, false, false}} {
 		d := Decl{In: "formData", Enc: "multipart", Name: "up", Type: "file", Required: f.Req, Val: noVal()}
